@@ -30,6 +30,8 @@ fn sub_profile(i: usize) -> Profile {
         shuffles: false,
         lists: false,
         externals: false,
+        done_and_fall_off: false,
+        idioms: false,
         prefix: PREFIX[i].to_string(),
         ..Profile::default()
     }
